@@ -34,7 +34,9 @@ KEYS = {
     'Sub2': ('Sub2', 'Sub2', 'Sub2'),
 }
 PATHS = [['alpha'], ['alpha', 'sub'], ['alpha', 'Sub2'], ['alpha', 'sub', 'Sub2'], ['Beta'], ['elan'], ['echo'], ['zeta'], ['one'], ['plus'],
-         ['under'], ['under2'], ['sortdisp'], ['quoted'], ['sd1'], ['sd2'], ['Beta', 'sub'], ['zeta', 'sub', 'Sub2'], ['alpha', 'sd1'], ['alpha', 'sd2']]
+         ['under'], ['under2'], ['sortdisp'], ['quoted'], ['sd1'], ['sd2'], ['Beta', 'sub'], ['zeta', 'sub', 'Sub2'], ['alpha', 'sd1'], ['alpha', 'sd2'],
+         # two top-level keys with the same sort key and different display text, with sub-entries that interleave
+         ['sd1', 'alpha'], ['sd2', 'echo'], ['sd1', 'zeta']]
 
 
 def collator():
